@@ -25,7 +25,7 @@ def gen(rng, tier):
     base = {"kind": rng.choice(["spy", "spy", "pool", "sync"]), "n": rng.choice([1, 2, 4])}
     if rng.random() < 0.65:
         pol = {"kind": "exception", "max_attempts": rng.choice([1, 2, 3, 4, 5]), "sleep": rng.choice([0, 0.05, 1, 2.5]),
-               "exponent": rng.choice([1, 2, 3]), "max_sleep": rng.choice([1, 4, 120])}
+               "exponent": rng.choice([0.5, 1, 2, 3]), "max_sleep": rng.choice([1, 4, 120])}
         if rng.random() < 0.4:
             pol["exception_base"] = rng.choice([["ErrA"], ["ErrA", "ErrB"], ["ErrB"], ["ErrC"]])
     else:
